@@ -173,10 +173,26 @@ func (s *ShutdownScenario) Run(tmp string, r *rng.R) {
 	var feedDones []chan struct{}
 	var fmu sync.Mutex
 	if has("feeds") {
+		_ = cols[0][1].SetRaw("cpj:multi", 0, nil, []byte("not a checkpoint {"))
 		run("feed-start", func(i int) {
 			c := cols[i%len(cols)][i%2]
 			done := make(chan struct{})
 			term := make(chan bool)
+			if i%5 == 4 {
+				// a multi-collection feed one of whose parts cannot start (unreadable checkpoint document): the call is
+				// refused, but whatever it started must end and its done channel close
+				// (a call refused before anything was started - closed handle, dropped collection - leaves done alone, like a
+				// refused single-collection feed; what a partly refused call leaves behind shows in the goroutine profile)
+				err := handles[i%len(handles)].StartDCPFeed(ctx, sgbucket.FeedArguments{ID: "multi", Backfill: sgbucket.FeedResume, CheckpointPrefix: "cpj", Terminator: term, DoneChan: done,
+					Scopes: map[string][]string{sgbucket.DefaultScope: {sgbucket.DefaultCollection}, collY.Scope: {collY.Collection}}}, func(sgbucket.FeedEvent) bool { return true }, nil)
+				if err == nil {
+					fmu.Lock()
+					feedDones = append(feedDones, done)
+					fmu.Unlock()
+				}
+				close(term)
+				return
+			}
 			err := c.StartDCPFeed(ctx, sgbucket.FeedArguments{ID: fmt.Sprintf("s%d", i), Backfill: 0, Dump: i%3 == 0, Terminator: term, DoneChan: done}, func(sgbucket.FeedEvent) bool { return true }, nil)
 			if err == nil {
 				fmu.Lock()
